@@ -647,7 +647,9 @@ pub fn oracle_c06(scn: &E1Scn, d: &Digest, stats: &mut Stats) -> Vec<Violation> 
         }
         // (3) still alive at expiry => killed and reaped exactly then
         let faulty = c.faults > 0;
-        let dropped_early = c.dropped.map(|dr| !dr.2 && dr.0 <= deadline).unwrap_or(false);
+        // (dropped un-reaped before the deadline: legitimate only for a job told to go at once - delete_now, checked
+        // below - or torn down with the scenario; a job whose handles are dropped still sees its grace period out)
+        let dropped_early = c.dropped.map(|dr| !dr.2 && dr.0 <= deadline && dr.3).unwrap_or(false);
         match c.exit {
             Some((e, _)) if e < deadline => stats.hit("probe:child-exit-inside-grace"),
             Some((e, _)) if e == deadline => stats.hit("probe:exit-at-expiry-tie"),
@@ -1000,13 +1002,24 @@ pub fn oracle_c07(scn: &E1Scn, d: &Digest, out: &RunOut, stats: &mut Stats) -> V
                     }
                 }
                 None => {
-                    // never ran: only fine if the job ended
+                    // never ran: only fine if the job ended ...
                     if task_end.map(|g| g.0 > earliest).unwrap_or(true) {
                         vs.push(Violation::new(
                             "ticket-resolved-control-never-ran",
                             "",
                             format!("marker op {id} never ran but its ticket resolved at t={earliest} with the job alive"),
                         ));
+                    } else if let (Some(te), Some(snd)) = (task_end, d.send.get(&id)) {
+                        // ... and ended because it was told to (delete, delete_now) or panicked: a job whose last handle
+                        // is dropped stops only once its queue is drained, so a control queued before that still runs
+                        let told = all_ops(scn).iter().any(|o| matches!(o.3.op, Op::Delete | Op::DeleteNow) && d.send.get(&o.0).map(|x| x.1 < te.1).unwrap_or(false));
+                        if !told && !te.2 && snd.1 < te.1 {
+                            vs.push(Violation::new(
+                                "queued-control-dropped-at-job-end",
+                                "",
+                                format!("marker op {id} was queued at t={} (#{}) on a live job that nobody deleted; the job task ended at t={} (#{}) without running it", snd.0, snd.1, te.0, te.1),
+                            ));
+                        }
                     }
                 }
             }
@@ -1164,6 +1177,29 @@ pub fn oracle_c10(scn: &E1Scn, d: &Digest, stats: &mut Stats) -> Vec<Violation> 
     for (id, starts) in &d.marker_start {
         if starts.len() > 1 {
             vs.push(Violation::new("control-ran-twice", "", format!("marker op {id} ran {} times", starts.len())));
+        }
+    }
+    // ... and, on a job that nobody deleted, exactly once: a job whose handles are all dropped stops only after its
+    // queue is drained (also while a grace period holds the normal queue back)
+    if let Some(te) = d.task_end {
+        let told = all_ops(scn).iter().any(|o| matches!(o.3.op, Op::Delete | Op::DeleteNow) && d.send.get(&o.0).map(|x| x.1 < te.1).unwrap_or(false));
+        if !told && !te.2 {
+            if scn.drop_handles {
+                stats.hit("probe:job-ended-by-dropping-its-handles");
+            }
+            for (id, _, _, st) in all_ops(scn) {
+                if st.op.is_marker() && !d.marker_start.contains_key(&id) {
+                    if let Some(snd) = d.send.get(&id) {
+                        if snd.1 < te.1 {
+                            vs.push(Violation::new(
+                                "queued-control-dropped-at-job-end",
+                                "",
+                                format!("marker op {id} was queued at t={} on a live job that nobody deleted; the job task ended at t={} without running it", snd.0, te.0),
+                            ));
+                        }
+                    }
+                }
+            }
         }
     }
     let task_end_t = d.task_end.map(|t| t.0);
@@ -1366,7 +1402,7 @@ impl Check for C10 {
             0 => gen_hi_over_normal(rng),
             1 | 2 => gen_order(rng),
             3 => gen_graceful_burst(rng, false, false),
-            _ => e1::gen_random(rng, &GenCfg { stalls: true, faults: false, max_ops: 16, max_senders: 3, allow_drop: false, kill_lag: false }),
+            _ => e1::gen_random(rng, &GenCfg { stalls: true, faults: false, max_ops: 16, max_senders: 3, allow_drop: idx % 3 == 0, kill_lag: false }),
         })
     }
     fn execute(&self, scn: &E1Scn, policy: Policy, sched_seed: u64) -> RunOut {
@@ -1389,6 +1425,7 @@ impl Check for C10 {
     fn required_probes(&self, _tier: Tier) -> Vec<&'static str> {
         vec![
             "probe:fifo-pair-judged",
+            "probe:job-ended-by-dropping-its-handles",
             "probe:ticket-implies-earlier-judged",
             "probe:delete-now-sent-to-live-job",
             "probe:high-vs-normal-burst",
